@@ -20,7 +20,7 @@ meta={
  'variant':x,
  'origin':'fresh sub-agent given only the property text and a scratch worktree of /repo HEAD',
  'needs_to_manifest':open(dst+'/agent_meta.txt').read()[:4000],
- 'demo':{'crate':crate,'place_at':crate+'/tests/seeded_demo.rs','cmd':'cargo test --offline -p %s --test seeded_demo'%crate},
+ 'demo':{'crate':crate,'place_at':crate+'/tests/seeded_demo.rs','cmd':'cargo test --offline -p %s %s--test seeded_demo'%(crate,'--features async ' if crate=='mpd_protocol' else '')},
  'confirmed_in_scratch_worktree':{
    'demo_passes_without_change': 'demo passes without the change: OK' in log,
    'demo_fails_with_change': 'demo fails with the change: OK' in log,
